@@ -13,3 +13,13 @@ pub use super::ExtensionHeaderVersion as EhVersion;
 pub fn ef_serialize_hook(ef: &ExtensionField<'_>, w: &mut Cursor<&mut [u8]>, minimum_size: u16, version: ExtensionHeaderVersion) -> std::io::Result<()> {
     ef.serialize(w, minimum_size, version)
 }
+
+// ---- C25 (np_packet_h): thin wrapper around the private NTS authenticator encoder.
+pub fn encode_encrypted_hook(
+    w: &mut Cursor<&mut [u8]>,
+    fields_to_encrypt: &[ExtensionField<'_>],
+    cipher: &dyn Cipher,
+    version: ExtensionHeaderVersion,
+) -> std::io::Result<()> {
+    ExtensionField::encode_encrypted(w, fields_to_encrypt, cipher, version)
+}
